@@ -4,7 +4,7 @@ here="$(cd "$(dirname "$0")/.." && pwd)"
 d="$1"; shift
 [ -f "$d/patch.diff" ] || { echo "no patch in $d"; exit 2; }
 [ -z "$(git -C /repo status --porcelain)" ] || { echo "/repo is dirty"; exit 2; }
-git -C /repo apply "$d/patch.diff" || exit 2
+git -C /repo apply "$(cd "$d" && pwd)/patch.diff" || exit 2
 trap 'git -C /repo checkout -- . ; git -C /repo status --porcelain | head -3' EXIT
 for id in "$@"; do
   out=$("$here/bin/check" "$id" quick 2>&1); rc=$?
